@@ -599,3 +599,30 @@ Lemma excluded_ops_leave_second_record :
   let s := run Current k0 init [Accept 1; Accept 2; Handshake 1 0 7 true; Handshake 2 0 7 false] in
   live_asb s 7 1 = true /\ live_asb s 7 2 = true /\ by_client s 7 = Some 1.
 Proof. vm_compute. repeat split. Qed.
+
+(* ------------------------------------------------------------------------------------------ *)
+(* a control record that outlives its base record (late registration racing CloseConnection)   *)
+(* ------------------------------------------------------------------------------------------ *)
+Lemma inv_phaseA_late k c kind x s : Inv s -> Inv (fst (hs_phaseA_late Current k c kind x s)).
+Proof.
+  intros Hinv. unfold hs_phaseA_late.
+  set (s1 := match get c (reg s) with Some _ => s | None => bump (registry_register k c (new_ctl s 0) s) end).
+  assert (H1 : Inv s1).
+  { unfold s1. destruct (get c (reg s)) eqn:E; [exact Hinv|]. apply inv_bump. apply inv_register; [exact Hinv|exact E|]. cbn. intros H. discriminate. }
+  destruct (get c (reg s1)) as [r|] eqn:Er; [|exact H1]. cbn [fst].
+  destruct H1 as [A B C]. unfold reconcile. cbn [reconciles]. unfold with_reg at 1. proj. rewrite get_set_same.
+  unfold with_idx, with_reg. split; proj.
+  - apply nodup_set. exact A.
+  - unfold drop_stale. apply nodup_filter. exact B.
+  - apply OK1_mutate_reconcile; assumption.
+Qed.
+
+(* the interleaving of seeded C07-16: the stale sweep / a kick-then-close / the adapter closes connection 1 while a late handshake of
+   connection 1 is between "base record fetched" and "control record registered"; the final CloseConnection(1) still cleans up *)
+Definition late_register_state : st :=
+  fst (fst (step_inj Current k0 (run Current k0 init [Accept 1]) (Handshake 1 0 7 true) (Some (9, CloseConn 1)))).
+Lemma late_register_demo :
+  mem 1 (sess late_register_state) = false /\ (exists r, by_conn late_register_state 1 = Some r /\ c_auth r = true) /\
+  mem 1 (closed late_register_state) = true /\ counts late_register_state = (0, 1, 0) /\
+  by_conn (close_conn 1 late_register_state) 1 = None /\ counts (close_conn 1 late_register_state) = (0, 0, 0).
+Proof. vm_compute. repeat split. eexists. split; reflexivity. Qed.
